@@ -308,6 +308,70 @@ def run_cases(name, imports, pairs, shard=400, timeout=600):
     return sorted(bad), "\n".join(logs)
 
 
+def unflat(seq):
+    """inverse of Lib/Base.v `flat`"""
+    pos = 0
+
+    def go():
+        nonlocal pos
+        tag = seq[pos]
+        if tag == 0:
+            pos += 2
+            return seq[pos - 1]
+        n = seq[pos + 1]
+        pos += 2
+        return [go() for _ in range(n)]
+    return go()
+
+
+def eval_terms(name, imports, terms, shard=200, timeout=600):
+    """evaluate Coq terms of type V with vm_compute and return them as Python values
+    (ints / nested lists); None for a shard that failed"""
+    os.makedirs(GEN, exist_ok=True)
+    shards = [terms[i:i + shard] for i in range(0, len(terms), shard)] or [[]]
+    procs = []
+    for k, ts in enumerate(shards):
+        path = os.path.join(GEN, f"Cases_{name}_e{k}.v")
+        with open(path, "w") as f:
+            f.write("From Verif Require Import Lib.Base.\n")
+            for imp in imports:
+                f.write(f"From Verif Require Import {imp}.\n")
+            f.write("Set Printing Width 100000000.\nSet Printing Depth 100000000.\n")
+            f.write("Definition terms : list V := [\n" + ";\n".join(" " + t for t in ts) + "].\n")
+            f.write("Eval vm_compute in (map flat terms).\n")
+        procs.append((k, path, subprocess.Popen(
+            ["bash", "-c", f"ulimit -s unlimited 2>/dev/null; exec timeout {timeout} coqc -Q . Verif -w -notation-overridden {path}"],
+            cwd=COQ, text=True, stdout=subprocess.PIPE, stderr=subprocess.STDOUT)))
+        if len(procs) % 12 == 0:
+            for _, _, p in procs[-12:]:
+                p.wait()
+    out, logs = [], []
+    for k, path, p in procs:
+        text, _ = p.communicate()
+        m = re.search(r"=\s*(\[.*\])\s*:\s*list \(list Z\)", text, re.S)
+        if p.returncode != 0 or not m:
+            logs.append(f"shard {k}: coqc failed\n{text[-1500:]}")
+            out.extend([None] * len(shards[k]))
+        else:
+            body = m.group(1).replace(";", ",").replace("%Z", "")
+            try:
+                vals = eval(body, {"__builtins__": {}})
+                out.extend(unflat(v) for v in vals)
+            except Exception as e:
+                logs.append(f"shard {k}: cannot parse output: {e}")
+                out.extend([None] * len(shards[k]))
+        for ext in (".v", ".vo", ".glob", ".vok", ".vos"):
+            try:
+                os.remove(path[:-2] + ext)
+            except FileNotFoundError:
+                pass
+        try:
+            os.remove(os.path.join(GEN, "." + os.path.basename(path)[:-2] + ".aux"))
+        except FileNotFoundError:
+            pass
+    return out, "\n".join(logs)
+
+
 # ------------------------------------------------------------- known findings
 def load_known(pid):
     path = os.path.join(VERIF, "known_findings.json")
@@ -355,6 +419,10 @@ class Check:
     def nontrivial(self, case, observed):
         return True
 
+    def prepare(self, cases):
+        """batch work before the per-case loop (e.g. one Coq run for all cases)"""
+        return None
+
     def search_cases(self):
         """extra cases tried when a proof or the correspondence broke"""
         return []
@@ -396,8 +464,15 @@ class Check:
             broken.append(("forbidden-construct", "; ".join(bad)))
         # 3. correspondence + property oracle on the real code
         cases = list(self.corpus()) + list(self.gen_cases())
+        try:
+            plog = self.prepare(cases)
+            if plog:
+                notes.append(str(plog)[:1500])
+        except Exception as e:
+            broken.append(("harness", f"prepare failed: {e!r}"))
+            notes.append(traceback.format_exc()[-800:])
         observed, failures, known_hits = [], [], {}
-        pairs = []
+        pairs, paired, encode_failed = [], [], False
         distinct = set()
         for c in cases:
             try:
@@ -407,9 +482,13 @@ class Check:
                 notes.append(traceback.format_exc()[-800:])
             observed.append(o)
             try:
-                pairs.append((self.model_term(c), self.model_value(c, o)))
+                mt = self.model_term(c)
+                if mt is not None:
+                    pairs.append((mt, self.model_value(c, o)))
+                    paired.append(len(observed) - 1)
             except Exception as e:
                 broken.append(("correspondence", f"cannot encode case: {e!r}"))
+                encode_failed = True
                 break
             h = self.holds(c, o)
             if h is not True:
@@ -417,10 +496,11 @@ class Check:
             if self.nontrivial(c, o):
                 distinct.add(hashlib.sha1(repr(self.describe(c)).encode()).hexdigest())
         mism = []
-        if ok and len(pairs) == len(cases):
+        if ok and not encode_failed and pairs:
             mism, clog = run_cases(pid, self.corr_imports, pairs, shard=self.shard)
             if clog:
                 notes.append(clog)
+            mism = [paired[m] for m in mism]
             if mism:
                 i = mism[0]
                 broken.append(("correspondence",
@@ -432,7 +512,12 @@ class Check:
         # 4. search when something broke
         searched = 0
         if broken and not failures:
-            for c in self.search_cases():
+            extra = list(self.search_cases())
+            try:
+                self.prepare(extra)
+            except Exception:
+                extra = []
+            for c in extra:
                 searched += 1
                 try:
                     o = self.run_impl(c)
